@@ -51,6 +51,9 @@ def cases(tier):
         for tag in range(1, 7):
             if tag != x:
                 add('extension tag %d' % tag, tamper={'op': 'tag', 'tag': tag})
+        # the tag BYTE replaced by values that share bits with the right one (same low nibble, a high bit set): refused by the decoder or by the verifier
+        for t in sorted({x | 0x10, x | 0x80, x | 0xf0, x | 0x40, (x << 4) & 0xff, x | 0x08} - {x}):
+            add('extension tag byte set to 0x%02x' % t, tamper={'op': 'tag_only', 'tag': t})
         for j in range(m):
             for bs in ({'b': 'h'}, {'b': 'g', 'k': 0}, {'b': 'free'}):
                 add('commitment %d += delta*%s' % (j, bs['b']), tamper_statement={'op': 'commitment_add_delta_basis', 'j': j, 'basis': bs})
@@ -99,6 +102,17 @@ def cases(tier):
                 members[pos] = dict(members[pos], verify_label='alt')
                 cfg = {'scenario': 'batch', 'n': 4, 'x': 1, 'members': members, 'actions': ['VerifyOnly', 'RecoverAndVerify']}
                 out.append({'cfg': cfg, 'name': 'batch of %d (%s contexts): transcript of member %d replaced (n4 x1)' % (k, 'own' if own else 'one common', pos), 'alter': 'batch:transcript'})
+    # the accepted triple and an ALTERED COPY of it in one batch (same proof bytes, same commitments and promises: only the component that is
+    # bound through the transcript differs), in both orders and behind another member
+    for (n, x, m) in [(8, 1, 1), (4, 2, 2)]:
+        good = {'m': m, 'cap': m, 'name_idx': 0, 'label': 'member 0'}
+        for alt_name, alt in (('transcript', {'verify_label': 'alt'}), ('commitment', {'tamper_statement': {'op': 'commitment_add_delta_basis', 'j': m - 1, 'basis': {'b': 'h'}}}),
+                              ('promise', {'tamper_statement': {'op': 'promise', 'j': 0, 'value': 'other'}})):
+            copy = dict(good, rng_replay_of=0, **alt)
+            other = {'m': 1, 'cap': m, 'label': 'member 2', 'name_idx': 2}
+            for members in ([good, copy], [good, other, copy], [good, copy, copy]):
+                cfg = {'scenario': 'batch', 'n': n, 'x': x, 'members': [dict(mm) for mm in members], 'actions': ['VerifyOnly', 'RecoverAndVerify']}
+                out.append({'cfg': cfg, 'name': 'batch of %d: the accepted triple and a copy with altered %s (n%d x%d m%d)' % (len(members), alt_name, n, x, m), 'alter': 'batch:copy-' + alt_name})
     return out
 
 
@@ -111,6 +125,9 @@ def analyse(ctx, case, run, S):
     if 'non-canonically' in case['alter']:
         # the altered byte string must already be refused by the decoder
         ctx.expect(ti is not None and ti.get('decoded') is False, 'C05:noncanonical-scalar', '%s: the re-encoded proof was decoded' % case['name'], cfg, 'noncanonical_accepted')
+        return
+    if 'tag byte' in case['alter'] and ti is not None and ti.get('decoded') is False:
+        ctx.expect(True, key, '', cfg)      # refused by the decoder: an error value
         return
     for v in run.out['verify']:
         if v['result'] == 'panic':
